@@ -39,6 +39,9 @@ Good == [ok |-> TRUE, clause |-> "", exp |-> 0]
 StepEv(acc, e, n, orig) ==
     LET st == acc.st  k == acc.k IN
     IF ~acc.v.ok THEN acc
+    \* the harness could not bring the run to an end (writers blocked, child process lost): what was observed
+    \* up to here has been judged; the run itself is reported, never silently dropped
+    ELSE IF e.op = "stuck" THEN [acc EXCEPT !.v = Bad("run.incomplete", k, st, "")]
     ELSE IF Len(e.ls.other) # 0 THEN [acc EXCEPT !.v = Bad("ls.other", k, st, e.w)]
     ELSE IF LsOf(e.ls) # Visible(st) THEN [acc EXCEPT !.v = Bad(IF e.op = "post" THEN "post.ls" ELSE "ls", k, st, e.w)]
     ELSE IF e.op = "post" THEN
